@@ -806,7 +806,31 @@ func c01FunctionTable(w *World, r *Report) {
 			})
 			if an, ok := fnAnchor[key]; ok {
 				found := false
+				// strings.Cut(s, sep) gives the same split as strings.Index: the part wanted is the
+				// only result of it that is kept (before = #0, after = #1)
+				cutPart := map[string]int{"substring-before": 0, "substring-after": 1}
 				ast.Inspect(ifd.Body, func(n ast.Node) bool {
+					if as, ok := n.(*ast.AssignStmt); ok && len(as.Lhs) == 3 && len(as.Rhs) == 1 && an.callee == "strings.Index" {
+						c2, ok := as.Rhs[0].(*ast.CallExpr)
+						part, isCut := cutPart[key]
+						if ok && isCut && calleeOf(ip, c2) != nil && calleeOf(ip, c2).FullName() == "strings.Cut" && len(c2.Args) == 2 {
+							good := true
+							for i, want := range an.args {
+								if k, ok := argLocal[objOfIdent(ip, c2.Args[i])]; !ok || k != want {
+									good = false
+								}
+							}
+							for i := 0; i < 2; i++ {
+								id, isId := as.Lhs[i].(*ast.Ident)
+								if !isId || (id.Name == "_") != (i != part) {
+									good = false
+								}
+							}
+							if good {
+								found = true
+							}
+						}
+					}
 					c2, ok := n.(*ast.CallExpr)
 					if !ok || calleeOf(ip, c2) == nil || calleeOf(ip, c2).FullName() != an.callee {
 						return true
@@ -1177,13 +1201,43 @@ func c01Dispatch(w *World, r *Report) {
 				switch {
 				case c.Call.StaticCallee() != nil && c.Call.StaticCallee().Object() == types.Object(cns):
 					which = "nodeset"
-					if len(c.Call.Args) == 7 {
-						a0, a1 = c.Call.Args[5], c.Call.Args[6]
-						for i := 1; i <= 4; i++ {
-							if c.Call.Args[i] != ssa.Value(f.Params[i]) {
-								deleg = "the node-set routine gets the comparators or the operator in another order"
+					// matched by parameter type: the operands are the Datum arguments in order; the
+					// comparators are the caller's own, in the caller's order; the operator text, where
+					// it is passed, is the caller's
+					callee := c.Call.StaticCallee()
+					var datums, fns, ownFns []ssa.Value
+					isFn := func(t types.Type) bool { _, ok := t.Underlying().(*types.Signature); return ok }
+					for _, fp := range f.Params[1:] {
+						if isFn(fp.Type()) {
+							ownFns = append(ownFns, fp)
+						}
+					}
+					for i, a := range c.Call.Args {
+						if i >= len(callee.Params) || (i == 0 && callee.Signature.Recv() != nil) {
+							continue
+						}
+						switch pt := callee.Params[i].Type(); {
+						case types.Identical(pt, left.Type()):
+							datums = append(datums, a)
+						case isFn(pt):
+							fns = append(fns, a)
+						default:
+							if _, own := a.(*ssa.Parameter); !own {
+								deleg = "the node-set routine gets an operator text other than the caller's"
 							}
 						}
+					}
+					if len(fns) != len(ownFns) {
+						deleg = "the node-set routine does not get the caller's comparators"
+					} else {
+						for i := range fns {
+							if fns[i] != ownFns[i] {
+								deleg = "the node-set routine gets the comparators in another order"
+							}
+						}
+					}
+					if len(datums) == 2 {
+						a0, a1 = datums[0], datums[1]
 					}
 				case c.Call.Value == ssa.Value(f.Params[1]):
 					which = "bool"
